@@ -8,6 +8,16 @@
 
 namespace BitSerializer::Detail
 {
+#ifdef BITSERIALIZER_VERIF
+	namespace Verif
+	{
+		// Verification knobs (off by default): effective size of the reader's window (8..chunk_size)
+		// and a switch that disables the in-cache fast path of SetPosition().
+		inline size_t binaryChunkSize = 256;
+		inline bool skipFastSeek = false;
+	}
+#endif
+
 	class CBinaryStreamReader
 	{
 	public:
@@ -36,7 +46,11 @@ namespace BitSerializer::Detail
 
 		std::istream& mStream;
 		char mBuffer[chunk_size];
+#ifdef BITSERIALIZER_VERIF
+		const char* const mEndBufferPtr = mBuffer + (Verif::binaryChunkSize >= 8 && Verif::binaryChunkSize <= chunk_size ? Verif::binaryChunkSize : chunk_size);
+#else
 		const char* const mEndBufferPtr = mBuffer + chunk_size;
+#endif
 		char* mStartDataPtr = mBuffer;
 		char* mEndDataPtr = mBuffer;
 		size_t mStreamPos = 0;
